@@ -331,11 +331,15 @@ pub fn record_c02(a: &Args) -> usize {
 fn decode_event(s: &[u8]) -> Value {
     let (res, reenc) = match catch(|| Frame::from_bytes(s)) {
         Ok(r) => {
+            // (re-encoding under observation too: a crash of the encoder is recorded as a decode that panicked)
             let reenc = match &r {
-                Ok(f) => f.to_bytes(),
-                Err(_) => vec![],
+                Ok(f) => catch(|| f.to_bytes()),
+                Err(_) => Ok(vec![]),
             };
-            (j::decode_result(&r), reenc)
+            match reenc {
+                Ok(re) => (j::decode_result(&r), re),
+                Err(_) => (j::panic_result(), vec![]),
+            }
         }
         Err(_) => (j::panic_result(), vec![]),
     };
